@@ -163,6 +163,8 @@ def ev(body, e, leaf, depth=0):
             if sub is not None:
                 from .facts import subst_args
                 d = subst_args(d, sub)
+            from .facts import norm_cond
+            d, v = norm_cond(d, v)       # `?` / ok() / map() wrappers: the decision on the underlying Option / Result
             try:
                 dv = ev(body, d, leaf, depth + 1)
             except Unknown:
@@ -194,6 +196,20 @@ def ev(body, e, leaf, depth=0):
             return uniq[0]
         raise Unknown('phi with %d feasible values' % len(uniq))
     if k == 'discr':
+        x = e[1]
+        while x[0] in ('ref', 'deref'):
+            x = x[1]
+        if x[0] == 'phi':                  # discriminant of a merged value: the discriminant of the branch taken
+            return ev(body, ('phi', x[1], [('discr', br) for br in x[2]]) + tuple(x[3:]), leaf, depth + 1)
+        if x[0] == 'aggr':
+            tail = '::'.join(str(x[1]).split('::')[-2:])
+            if tail in ('Option::None', 'Option::Some', 'Result::Ok', 'Result::Err'):
+                return {'Option::None': 0, 'Option::Some': 1, 'Result::Ok': 0, 'Result::Err': 1}[tail]
+            adt = body.facts.adts.get(str(x[1]).rsplit('::', 1)[0])
+            if adt:
+                for vv in adt['variants']:
+                    if vv['name'] == str(x[1]).rsplit('::', 1)[1]:
+                        return vv['discr']
         v = rec(e[1])
         if isinstance(v, dict) and '__discr__' in v:
             return v['__discr__']
